@@ -34,7 +34,7 @@ class Ob:
                  loop_contracts=False, inject=None, flags=(), unwind=None, unwindset=(), timeout=600, mem=4,
                  functions=(), kind='proof', bound=None, tier='quick', replay=True, checks=None, note='',
                  solver=(), nondet_static=False, expect_fail=(), native_srcs=None, native_libs=(), cost=1,
-                 no_canary=False, object_bits=None, preunwind=(), native_defs=None):
+                 no_canary=False, object_bits=None, preunwind=(), native_defs=None, incl_first=(), small_path=False):
         self.name = name
         self.harness = harness
         self.entry = entry
@@ -58,7 +58,8 @@ class Ob:
         self.replay = replay
         self.checks = CHECK_FLAGS if checks is None else list(checks)
         self.note = note
-        self.solver = list(solver)
+        # MiniSat's simplifier is pathological on these formulas (99 s vs 2 s); CaDiCaL is the default back end
+        self.solver = list(solver) if solver else ['--sat-solver', 'cadical']
         self.expect_fail = list(expect_fail)  # substrings of obligations that MUST fail (known-finding demos)
         self.native_srcs = native_srcs
         self.native_libs = list(native_libs)
@@ -66,6 +67,8 @@ class Ob:
         self.cost = cost
         self.no_canary = no_canary
         self.object_bits = object_bits
+        self.small_path = small_path
+        self.incl_first = ['-I' + (p if os.path.isabs(p) else os.path.join(VERIF, p)) for p in incl_first]
 
 
 # --------------------------------------------------------------------------------------------------
@@ -165,7 +168,7 @@ def build_and_check(ob, tierdir):
     t0 = time.time()
     defs = ['-D%s=%s' % (k, v) if v is not None else '-D%s' % k for k, v in ob.defs.items()]
     srcs = [src_path(s) for s in ob.srcs]
-    incl = list(INCLUDES)
+    incl = ob.incl_first + list(INCLUDES)
     if ob.inject:
         import inject
         inj_dir = os.path.join(d, 'inj')
@@ -181,6 +184,8 @@ def build_and_check(ob, tierdir):
         defs.append('-DVERIF_INJ_DIR="%s"' % inj_dir)
         r['inject'] = {k: dict(scratch=v) for k, v in mapping.items()}
     harness = os.path.join(VERIF, ob.harness)
+    if ob.small_path:
+        defs = defs + ['-include', os.path.join(VERIF, 'include', 'small_path.h')]
     cmd = ['goto-cc', '-DHAVE_CONFIG_H', '-DVERIF_CBMC'] + defs + incl + ['--function', ob.entry, harness] + srcs + ['-o', 'a.gb']
     rc, dt, st = run_cmd(cmd, d, 300, 8, os.path.join(d, 'goto-cc.log'))
     if rc != 0:
@@ -254,6 +259,11 @@ def build_and_check(ob, tierdir):
         if not any('loop_invariant_step' in p[0] or 'invariant' in p[1] for p in props):
             r['reason'] = 'loop contract supplied but no loop-invariant obligation generated (contract silently dropped)'
             return r
+    if unexpected_failed and all('unwind' in p[0].split('.')[-2:][0] or '.unwind.' in p[0] for p in unexpected_failed):
+        # only unwinding assertions failed: the bound of the driver was exceeded, nothing is known about the property
+        r['status'] = 'undecided'
+        r['reason'] = 'unwinding assertion failed (%s): bound too small or a loop no longer terminates within it' % unexpected_failed[0][0]
+        return r
     if unexpected_failed:
         r['status'] = 'failed'
         return r
@@ -365,7 +375,7 @@ def native_replay(ob, r, vals, rdir):
     # the whole repo (archive members are only pulled for symbols the driver does not define itself)
     cmd = ['gcc', '-g', '-O0', '-w', '-fsanitize=address', '-fno-omit-frame-pointer',
            '-DHAVE_CONFIG_H', '-D_FILE_OFFSET_BITS=64', '-DVERIF_NATIVE', '-DVERIF_ENTRY=' + ob.entry,
-           '-DVERIF_REPLAY_VALUES="%s"' % valf] + defs + INCLUDES + [os.path.join(VERIF, ob.harness), lib, '-o', exe,
+           '-DVERIF_REPLAY_VALUES="%s"' % valf] + defs + ob.incl_first + INCLUDES + [os.path.join(VERIF, ob.harness), lib, '-o', exe,
            '-lpthread', '-lm', '-lblkid'] + ob.native_libs
     with open(os.path.join(rdir, 'replay.sh'), 'w') as f:
         f.write('#!/bin/sh\n# native replay of the cbmc counterexample against the real code\n')
@@ -560,7 +570,9 @@ def write_evidence(pid, tier, seed, spec, obs, results, wall, nviol, known_hits,
                           functions=o.functions, cbmc_obligations=r['n_props'], discharged=r['n_ok'],
                           wall_s=round(r['wall_s'], 2), solver_s=round(r['solver_s'], 2), reason=r['reason'],
                           canary_fired=r['canary'], defs=o.defs, enforce=o.enforce, replaced=o.replace,
-                          loop_contracts=o.loop_contracts, note=o.note))
+                          loop_contracts=o.loop_contracts, note=o.note, path_max_64=o.small_path))
+        if o.small_path and 'PATH_MAX' not in ' '.join(assumptions):
+            assumptions.append('PATH_MAX reduced from 4096 to 64 in the cbmc build of the units marked path_max_64 (struct layout only; the functions concerned never touch the path members)')
         for f in o.functions:
             funcs.setdefault(f, []).append(o.name)
         if o.kind == 'bounded':
@@ -583,7 +595,7 @@ def write_evidence(pid, tier, seed, spec, obs, results, wall, nviol, known_hits,
         units_bounded=len(bounded_units),
         units_undecided=[o.name for o in undecided],
         checker_cmd='goto-cc -DHAVE_CONFIG_H <real /repo .c files> + [goto-instrument --dfcc <entry> --enforce-contract f --replace-call-with-contract g --apply-loop-contracts] + cbmc ' + ' '.join(CHECK_FLAGS),
-        trusted_base=spec.get('trusted_base', []) + ['cbmc 6.11.0 / MiniSat 2.2.1 (default) soundness', 'goto-cc C semantics == gcc x86-64 LP64 little-endian', "/repo/config.h as generated by the repo's own configure"],
+        trusted_base=spec.get('trusted_base', []) + ['cbmc 6.11.0 with CaDiCaL 3.0.0 (default here) or kissat 4.0.1 (where named) soundness', 'goto-cc C semantics == gcc x86-64 LP64 little-endian', "/repo/config.h as generated by the repo's own configure"],
         functions_under_contract=sorted(funcs),
         bounded_stand_ins=bounded,
         solver_s=round(sum(u['solver_s'] for u in units), 2),
